@@ -19,6 +19,7 @@ type Profile struct {
 	PReorg, PSnapCrash, PCacheOps, PQuery int
 	PForged                               int
 	PrefixSharePct                        int // percent of runs whose leaf hashes share a 27-byte prefix
+	LargePermille                         int // per-mille of blocks with 1025..4124 additions (verifier-only profiles)
 	HugePermille                          int // per-mille of runs with one block of 65536+ additions (16-bit counters)
 	NetFaults                             bool
 	QueryModes                            []string
@@ -86,11 +87,11 @@ func init() {
 	lightNodes := func(r *Rng) []NodeCfg {
 		return []NodeCfg{{Kind: "light"}, {Kind: "light"}, {Kind: "light", Big: bigOffset(r)}, {Kind: "stump"}, {Kind: "light", Big: bigOffset(r)}}
 	}
-	reg(&Profile{Name: "c07", PrefixSharePct: 15, PForged: 10, HugePermille: 2, Property: "C07", Oracles: []string{"roots", "light"},
+	reg(&Profile{Name: "c07", LargePermille: 4, PrefixSharePct: 15, PForged: 10, HugePermille: 2, Property: "C07", Oracles: []string{"roots", "light"},
 		Nodes: lightNodes, MaxBlocks: 40, MaxAdds: 40, PReorg: 10, PSnapCrash: 3, NetFaults: true})
-	reg(&Profile{Name: "c08", PrefixSharePct: 15, PForged: 10, HugePermille: 1, Property: "C08", Oracles: []string{"roots", "light"},
+	reg(&Profile{Name: "c08", LargePermille: 4, PrefixSharePct: 15, PForged: 10, HugePermille: 1, Property: "C08", Oracles: []string{"roots", "light"},
 		Nodes: lightNodes, MaxBlocks: 40, MaxAdds: 40, PReorg: 35, PSnapCrash: 3, NetFaults: true})
-	reg(&Profile{Name: "c11", PrefixSharePct: 15, PForged: 10, HugePermille: 2, Property: "C11", Oracles: []string{"roots", "updatedata"},
+	reg(&Profile{Name: "c11", LargePermille: 8, PrefixSharePct: 15, PForged: 10, HugePermille: 2, Property: "C11", Oracles: []string{"roots", "updatedata"},
 		Nodes: func(r *Rng) []NodeCfg {
 			return []NodeCfg{{Kind: "stump"}, {Kind: "stump", Big: bigOffset(r)}, {Kind: "stump", Big: bigOffset(r)}}
 		},
@@ -353,7 +354,7 @@ func Generate(p *Profile, seed uint64) *Scenario {
 		}
 		// a block
 		dels := genDels(g, st, delBias)
-		adds := genAdds(g, st, addScale, p.MaxAdds)
+		adds := genAdds(g, st, addScale, p.MaxAdds, p.LargePermille)
 		if justReorged && lastAdds >= 0 && g.Pct(50) {
 			// twin block: right after a branch switch, a block with the same number of
 			// deletions and additions as the last block of the abandoned branch, but
@@ -495,7 +496,12 @@ func genDels(g *Rng, st *State, bias int) []int {
 	return out
 }
 
-func genAdds(g *Rng, st *State, scale, max int) int {
+func genAdds(g *Rng, st *State, scale, max int, largePermille int) int {
+	if largePermille > 0 && g.Intn(1000) < largePermille {
+		// a large block: more than 1024 additions (bounds and look-aheads in the
+		// low thousands), far fewer than the thorough tier's 65536
+		return 1025 + g.Intn(3100)
+	}
 	n := 0
 	switch g.Weighted(10, 15, 40, 20, 10, 5) {
 	case 0:
